@@ -63,9 +63,59 @@ def RegAxis.subsample (k : Nat) (a : RegAxis) : RegAxis :=
   let dnew := a.delta * (k : Rat)
   { delta := dnew, dim := a.dim / k, zero := a.zero - a.delta / 2 + dnew / 2 }
 
+/-- axial coordinates `(q, r)` of ring `n` of `make_hexagonal_grid`, in the order the code lists them:
+top, right top, right bottom, bottom, left bottom, left top — `n` hexagons each -/
+def hexRing (n : Nat) : List (Int × Int) :=
+  let N : Int := n
+  (List.range n).map (fun (k : Nat) => ((N - (k : Int), (k : Int)) : Int × Int)) ++
+  (List.range n).map (fun (k : Nat) => ((-(k : Int), N) : Int × Int)) ++
+  (List.range n).map (fun (k : Nat) => ((-N, N - (k : Int)) : Int × Int)) ++
+  (List.range n).map (fun (k : Nat) => ((-N + (k : Int), -(k : Int)) : Int × Int)) ++
+  (List.range n).map (fun (k : Nat) => (((k : Int), -N) : Int × Int)) ++
+  (List.range n).map (fun (k : Nat) => ((N, -N + (k : Int)) : Int × Int))
+
+/-- all hexagons: the centre, then ring 1, ring 2, … -/
+def hexQR (rings : Nat) : List (Int × Int) := (0, 0) :: (List.range rings).flatMap fun n => hexRing (n + 1)
+
+/-- `make_hexagonal_grid(circum_diameter, n_rings, pointy_top, center)`; `s3` stands for `√3` -/
+def makeHexGrid (s3 d : Rat) (rings : Nat) (pointy : Bool) (cx cy : Rat) : Grid :=
+  let apothem := d * s3 / 4
+  let qr := hexQR rings
+  -- (the centre is added after the axes have been exchanged for flat-topped hexagons: the code after the repair D86)
+  let x := fun (c : Rat) => qr.map fun p => ((-p.1 + p.2 : Int) : Rat) * d / 2 + c
+  let y := fun (c : Rat) => qr.map fun p => ((p.1 + p.2 : Int) : Rat) * apothem * 2 + c
+  { system := .cartesian, coords := .unstructured (if pointy then [x cx, y cy] else [y cx, x cy]),
+    weights := .scalar (2 * (apothem * apothem) * s3) }
+
+/-- `make_pupil_grid(dims, diameter)`: the uniform grid of that extent around the origin -/
+def makePupilGrid (dims : List Nat) (diameter : List Rat) : Grid :=
+  makeUniformGrid dims diameter (diameter.map fun _ => 0) false
+
 inductive Err where
   | value | type | index | notimpl | attr
 deriving DecidableEq, Repr
+
+/-- the `spatial_resolution` `make_focal_grid` derives from its optional arguments `spatial_resolution`,
+`f_number`, `pupil_diameter`, `focal_length`, `reference_wavelength` (scalars); `.value` = the ValueError
+for an incomplete set -/
+def focalResolution (sr fnum pd fl wl : Option Rat) : Except Err Rat :=
+  match sr with
+  | some s => .ok s
+  | none =>
+    let fnum' : Option Rat := match fnum with
+      | some f => some f
+      | none => match pd, fl with
+        | some p, some f => some (f / p)
+        | _, _ => none
+    match fnum', wl with
+    | none, none => .ok 1
+    | none, some _ => .error .value
+    | some _, none => .error .value
+    | some f, some w => .ok (f * w)
+
+/-- `make_focal_grid` with all its (scalar) optional arguments -/
+def makeFocalGridFull (q na : List Rat) (sr fnum pd fl wl : Option Rat) : Except Err Grid :=
+  (focalResolution sr fnum pd fl wl).map fun s => makeFocalGrid q na (q.map fun _ => s)
 
 def Grid.supersample (k : List Nat) (g : Grid) : Except Err Grid :=
   match g.coords with
@@ -323,6 +373,25 @@ def stepEffect (st : Store) : List String → Option (Effect × String)
     let q ← parseRatList? q; let na ← parseRatList? na; let sr ← parseRatList? sr
     if q.length ≠ na.length ∨ q.length ≠ sr.length then none else
     pure (Effect.push (makeFocalGrid q na sr), s!"ok {st.length}")
+  | ["pupil", dims, diam] => do
+    let dims ← parseNatList? dims; let diam ← parseRatList? diam
+    if dims.length ≠ diam.length then none else
+    pure (Effect.push (makePupilGrid dims diam), s!"ok {st.length}")
+  | ["focalfull", q, na, sr, fnum, pd, fl, wl] => do
+    let q ← parseRatList? q; let na ← parseRatList? na
+    let opt : String → Option (Option Rat) := fun s => if s == "-" then some none else (parseRat? s).map some
+    let sr ← opt sr; let fnum ← opt fnum; let pd ← opt pd; let fl ← opt fl; let wl ← opt wl
+    if q.length ≠ na.length then none else
+    match makeFocalGridFull q na sr fnum pd fl wl with
+    | .ok g => pure (Effect.push g, s!"ok {st.length}")
+    | .error e => pure (Effect.keep, showErr e)
+  | ["hex", s3, d, rings, pointy, cx, cy] => do
+    let s3 ← parseRat? s3; let d ← parseRat? d; let rings ← parseNat? rings; let pointy ← parseNat? pointy
+    let cx ← parseRat? cx; let cy ← parseRat? cy
+    pure (Effect.push (makeHexGrid s3 d rings (pointy != 0) cx cy), s!"ok {st.length}")
+  | ["hexqr", rings] => do
+    let rings ← parseNat? rings
+    pure (Effect.keep, "ok " ++ ";".intercalate ((hexQR rings).map fun p => s!"{p.1},{p.2}"))
   | ["fft", i, tau, q, fov, shift] => do
     let i ← parseNat? i; let g ← st[i]?; let tau ← parseRat? tau
     let q ← parseRatList? q; let fov ← parseRatList? fov; let shift ← parseRatList? shift
